@@ -223,7 +223,7 @@ class Arm(Robot):
         if not protect:
             theta = self.thetaProtector(theta)
         end_effector_pos =  tm(fmr.FKinSpace(self._link_homes_global[i].TM,
-            self.screw_list[0:6, 0:i], theta[0:i+1]))
+            self.screw_list[0:6, 0:i+1], theta[0:i+1]))
         return end_effector_pos
 
     def FKJoint(self, theta : 'np.ndarray[float]', i : int, protect : bool = False) -> tm:
